@@ -49,7 +49,7 @@ def iter {σ : Type} : Nat → (Nat → σ → σ) → σ → σ
   | n + 1, f, s => f n (iter n f s)
 
 /-- `a[i] = v` on an array seen as a function -/
-@[noinline] def upd {β : Type} (f : Nat → β) (i : Nat) (v : β) : Nat → β := fun j => if j = i then v else f j
+def upd {β : Type} (f : Nat → β) (i : Nat) (v : β) : Nat → β := fun j => if j = i then v else f j
 
 inductive Site where
   | alpha | W0 (c : Nat) | V0 (m : Nat) | W (c : Nat) | V2 (m : Nat) | V1 (m : Nat)
